@@ -114,6 +114,5 @@ func VerifC20Modify() {
 	if derr != nil {
 		return
 	}
-	symAssert(len(dec) > len(body) && string(dec[:0]) == "", "the decoded document grew by the reload script")
 	verifCheckInserted(string(body), string(dec), parseNonce(csp))
 }
